@@ -35,6 +35,11 @@ def _only_lane_counts(term) -> bool:
 
 def run(rep: Report) -> None:
     rep.trusted += TRUSTED_WIRE
+    # the analysis worlds build elements from their slots: the constructors must store
+    # every argument, symbolic or not, in the slot the dynamics read
+    from .. import ctor as _ctor
+
+    _ctor.check(rep, groups=("link", "vsl", "origin"))
     cks = [ck for ck in wire_results(rep, "base") if ck.cfg.impl == "casadi"]
     cks += wire_results(rep, "flags", impls=("casadi",))
     if not require_no_errors(rep, cks):
